@@ -34,13 +34,13 @@ ASSUMPTIONS = ['one fault per operation; key universes of <= 6 keys; node sizes 
 
 def bounds(tier):
     return ('quick: OO and OI, 4 kinds, both implementations: trees N=5 @2/2 (C) / N=4 (Py), N=4 @3/2, '
-            'leaves N=4; thinning space of 8 keys; thorough: all five object-key families, N=6 (C) / 5 (Py)')
+            'leaves N=4; thinning space of 8 keys; pin audit (no STICKY node) after every faulted call (C); thorough: all five object-key families, N=6 (C) / 5 (Py)')
 
 
 def required_guards(tier):
     return ['faults_injected', 'fault_reached_caller', 'unchanged_after_fault', 'completed_after_fault',
             'height>=3', 'kind:insert', 'kind:delete', 'kind:range', 'kind:setop', 'kind:merge',
-            'kind:lookup', 'followup_ok', 'reference_audits']
+            'kind:lookup', 'followup_ok', 'reference_audits', 'pin_audits']
 
 
 def configs(tier):
@@ -301,6 +301,17 @@ def _job(fam, kind, impl, sizes, n, thin):
                 kkey.arm(fail_at=nth)
                 r = thunk()
                 kkey.disarm()
+                if impl == 'c':
+                    # nothing stays pinned against eviction after a failed operation (first look at the
+                    # container: every later access would unpin the node it passes through)
+                    pinned = C.sticky_nodes(t, tree)
+                    guards['pin_audits'] += 1
+                    if pinned:
+                        rep.add(dict(fam=fam, kind=kind, impl=impl, site=name, tag=tag, cls='sticky'),
+                                dict(base, history=[list(o) for o in _plain(hist)], op=name,
+                                     op_detail=repr(mop), nth=nth, of=cnt),
+                                'after comparison #%d of %d failed in %s these nodes are left pinned (STICKY): %s'
+                                % (nth, cnt, name, ', '.join(pinned)))
                 if ex0 is not None:
                     # reference oracle: whatever else refers to a node or key does so before and
                     # after the failed operation alike, so refcount - owning slots must not move
